@@ -15,7 +15,7 @@ from black_it.loss_functions.likelihood import LikelihoodLoss
 from black_it.loss_functions.minkowski import MinkowskiLoss
 from black_it.loss_functions.msm import MethodOfMomentsLoss
 from harness.common import Case, f
-from harness.losses import AckFun, cells_unchanged, ident_cells, loss_world
+from harness.losses import per_series_filter, reducing_filter, AckFun, cells_unchanged, ident_cells, loss_world
 from symx.core import Sym, is_sym, lift
 
 LEVEL = "other"
@@ -65,14 +65,7 @@ class UserLoss(BaseLoss):
 
 
 def _mkfilter(G, N):
-    def flt(series):
-        out = G(list(series))
-        a = np.empty(N, dtype=object)
-        for i in range(N):
-            a[i] = out[i]
-        return a
-
-    return flt
+    return per_series_filter(G, N)
 
 
 def _ref_weighted(F, sim, real, weights, filters, D):
@@ -137,10 +130,7 @@ class _ConcreteUser(BaseLoss):
 
 
 def _cfilter(k):
-    def flt(s):
-        return np.asarray(s) * (k + 2) + k
-
-    return flt
+    return reducing_filter(k)
 
 
 def replay_weighted(D, E, N, wmode, fmode, v):
@@ -300,7 +290,7 @@ def case_ens_perm(kind, E, N, D):
                 return True, f"{kind} raised {type(e).__name__}: {e}"
         return False, "symmetric"
 
-    return Case(name, body, replay, time_budget=300, split=4 if (kind == "gsl" and E * N >= 8) else 0)
+    return Case(name, body, replay, time_budget=300, split=6 if (kind == "gsl" and E * N >= 6) else 0)
 
 
 def case_sign(kind, E, N, D):
